@@ -7,7 +7,7 @@ from ..engine import Fail, Stratum
 from .. import exact as X, bridge as B, gen, genbody as GB, admit as A
 
 ID = "C05"
-USE_WITNESS = True
+WITNESS = ()
 RULE = (
     "containers Line, HalfLine, Segment, Plane (free lattice flats) and ConvexPolygon, ConvexPolyhedron (generated "
     "bodies, arbitrary pose). Point candidates: on the carrier at parameters {-1,-1/2,0,1/4,1/2,1,3/2,2}, in-plane "
